@@ -705,7 +705,75 @@ def _closures_rec_of(P, f):
     return out
 
 
+def r8_position_stack(ctx):
+    """expanding a nested endpoint (`a/b/port` with clusters on the way) keeps the prefix of the outer levels while it iterates an inner
+    cluster: the position stack handed down the recursion is restored to exactly what it was - one push before, one pop after each
+    descent (or a truncate to the length read before)"""
+    ctx.set_rule('C18.R8')
+    P = ctx.P
+    fs = [f for f in P.fn_list if f.key.startswith('des_net_utils::ndl::') and f.kind in ('fn', 'assocfn') and f.calls_to(f.key)]
+    n = 0
+    for f in fs:
+        rec = f.calls_to(f.key)
+        # stack parameters: `&mut Vec<_>` arguments that are handed on to the recursive call unchanged
+        for idx in range(1, f.argc + 1):
+            if not f.local_ty(idx).startswith('&mut std::vec::Vec<'):
+                continue
+            if not all(any(peel(f.expr_operand(a, r.b, 'T')) == ('arg', idx, f.local_name(idx)) or (peel(f.expr_operand(a, r.b, 'T'))[0] == 'arg' and peel(f.expr_operand(a, r.b, 'T'))[1] == idx) for a in r.args) for r in rec):
+                continue
+            muts = [s for s in f.calls() if s.args and 'std::vec::Vec' in s.name and s.argtys and s.argtys[0].startswith('&mut') and
+                    peel(f.expr_operand(s.args[0], s.b, 'T'))[0] == 'arg' and peel(f.expr_operand(s.args[0], s.b, 'T'))[1] == idx]
+            if not muts:
+                continue
+            n += 1
+            ctx.touch(f)
+            pushes = [s for s in muts if s.name.endswith('::push')]
+            pops = [s for s in muts if s.name.endswith('::pop')]
+            trunc = [s for s in muts if s.name.endswith('::truncate') and any(x[0] == 'call' and x[1].endswith('Vec::len') for x in walk(f.expr_operand(s.args[1], s.b, 'T')))]
+            other = [s.name.split('::')[-1] for s in muts if s not in pushes and s not in pops and s not in trunc]
+            ok = not other and len(pushes) >= 1 and len(pushes) == len(pops) + len(trunc) and \
+                all(any(f.dominates(p_.b, r.b) for p_ in pushes) for r in rec) and \
+                all(set(f.loops_containing(p_.b)) == set(f.loops_containing(q.b)) for p_ in pushes for q in pops + trunc)
+            ctx.check(ok, 'descent-restores-position:%s' % f.key.split('::')[-1],
+                      'around each recursive descent the position stack is pushed once and restored by exactly one pop (the outer prefix survives the iteration of an inner cluster)',
+                      f.where(), {'push': len(pushes), 'pop': len(pops), 'truncate_to_saved_len': len(trunc), 'other': other})
+    if n == 0:
+        # (representation without a shared stack: prefixes are composed from returned values - nothing to restore)
+        ctx.note('no recursive expansion with a `&mut Vec` position stack in the NDL front end')
+        ctx.ok('endpoint expansion does not use a shared position stack', None)
+
+
+def r9_empty_cluster_rejected(ctx):
+    """a zero-sized submodule cluster never elaborates: every successful return of transform_submodule has seen `kardinality != Cluster(0)`"""
+    ctx.set_rule('C18.R9')
+    f = ctx.anchor('des_net_utils::ndl::transform_submodule')
+    if not f:
+        return
+    ctx.touch(f)
+    n = 0
+    for path, outcome, decs in fn_paths(ctx, f):
+        if outcome != 'return':
+            continue
+        r = path_ret_resolved(f, path)
+        r = peel(r) if r is not None else ('unknown',)
+        if not (r[0] == 'agg' and str(r[1]).endswith('Result::Ok')):
+            continue
+        n += 1
+        def zero_cluster(t):
+            return any(x[0] == 'agg' and str(x[1]).endswith('Kardinality::Cluster') and x[2] and x[2][0] == ('int', 0) for x in walk(t))
+        seen = False
+        for _, a in path_atoms(f, path, decs):
+            if a[0] == 'cmp' and a[1] == 'ne' and any(x[0] == 'field' and x[2] == 'kardinality' for x in walk(a)) and zero_cluster(a):
+                seen = True
+            if a[0] == 'bool' and a[2] is False and a[1][0] == 'call' and a[1][1].split('::')[-1] == 'eq' and any(x[0] == 'field' and x[2] == 'kardinality' for x in walk(a[1])) and zero_cluster(a[1]):
+                seen = True
+        ctx.check(seen, 'empty-cluster-rejected', 'a submodule is only elaborated after its cluster size was found to be non-zero', f.where_path(path))
+    ctx.floor('successful paths of transform_submodule', n, 2)
+
+
 def run(ctx):
+    r9_empty_cluster_rejected(ctx)
+    r8_position_stack(ctx)
     r6_links_become_channels(ctx)
     r7_dependency_order(ctx)
     r1_panic_inventory(ctx)
